@@ -148,6 +148,16 @@ def _h_select(ctx, dtype, m, n_best, nan_idx, sym_thresh):
         ctx.require(ok, "C14.feature-left-out-without-reason",
                     f"{f} is not returned although its measure is defined, it is not too associated with a better-ranked returned feature and fewer than n_best better features were returned (returned {out})")
     ctx.require(X.equals(x_before), "C14.input-modified", "select modified X")
+    # ---- C15: permuting the columns of X (same statistics) does not change the selection, ties included
+    X2 = X[feats[::-1]]
+    if dtype == "float":
+        X2._symcorr = X._symcorr
+        sel2 = ClassificationSelector(n_best=n_best, quantitative_features=list(feats), quantitative_measures=[make_stub_measure(meas)], thresh_corr=th)
+    else:
+        sel2 = ClassificationSelector(n_best=n_best, qualitative_features=list(feats), qualitative_measures=[make_stub_measure(meas)], thresh_corr=th)
+    with rebound(ctx, [], extra=extra) if not getattr(ctx, "concrete", False) else _plain(extra):
+        out2 = sel2.select(X2, y)
+    ctx.require(list(out2) == list(out), "C15.column-order-changes-selection", f"select returned {out}; with the columns of X reversed it returned {out2}", dict(transform="columns"))
     return dict(counters={"ok": 1}, sample=dict(dtype=dtype, m=m, n_best=n_best, nan=list(nan_idx), out=out), result=dict(out=list(out)),
                 twin_distinct=[k for k in getattr(ctx, "symbols", {}) if k.startswith("m")])
 
